@@ -568,3 +568,32 @@ def stress_cases(rng, big=False):
     # durations of 8 and 16 bytes (export Err), 24-bit numbers
     out.append(Case("stress:durations", ["P 0", "B 0 " + hexs(v9_pkt([v9_fs(0, be(256, 2) + be(3, 2) + be(21, 2) + be(8, 2) + be(22, 2) + be(16, 2) + be(1, 2) + be(3, 2)), v9_fs(256, b"\xff" * 27)]))]))
     return out
+
+
+# ---------------------------------------------------------------- data before template (C07)
+
+def v9_template_then_data(rng, ex, tid=None):
+    """-> (template packet, data packet, template id, number of records)"""
+    tid, fs = ex.v9_template(tid)
+    while sum(l for _, l in fs) == 0:
+        tid, fs = ex.v9_template(tid)
+    tp = v9_pkt([ex.flowset(0, ex.v9_template_record(tid, fs), pad=0)])
+    nrec = rng.choice([1, 2, 5])
+    dp_sets = []
+    if rng.random() < 0.4 and ex.v9_t:
+        # a decodable flowset before the unknown one
+        pass
+    dp_sets.append(ex.flowset(tid, b"".join(ex.v9_record(fs) for _ in range(nrec))))
+    dp = v9_pkt(dp_sets)
+    return tp, dp, tid, nrec
+
+
+def ix_template_then_data(rng, ex, tid=None):
+    tid, fs = ex.ix_template(tid)
+    tset = ex.ix_set(2, be(tid, 2) + be(len(fs), 2) + b"".join(ex.ix_fspec(f) for f in fs))
+    nrec = rng.choice([1, 2, 5])
+    body = b"".join(b"".join(ex.ix_value(f) for f in fs) for _ in range(nrec))
+    if not body:
+        body = b"\x00"
+    dset = ex.ix_set(tid, body)
+    return ipfix_msg([tset]), dset, tid, nrec
